@@ -625,6 +625,7 @@ func c16Ops(w *world, docs map[int][]byte) []c16Op {
 	}
 	ctxs := append([]context.Context{context.Background()}, w.ctxs...)
 	sharedCtx := errdef.ContextWithOptions(ctxs[len(ctxs)-1], optsA...)
+	sharedDetails := errdef.Details{"who": "shared", "n": 1}
 
 	nd := len(defs)
 	if nd > 6 {
@@ -667,6 +668,12 @@ func c16Ops(w *world, docs map[int][]byte) []c16Op {
 		})
 		add("withoptions", fmt.Sprintf("d%d.WithOptions(optsB).Errorf", i), func() string {
 			return c16Snap(d.WithOptions(optsB...).Errorf("%[2]s then %[1]d", sharedArgs...), defs, false)
+		})
+		add("withoptions", fmt.Sprintf("d%d.WithOptions(Details,optsB).New", i), func() string {
+			return c16Snap(d.WithOptions(append([]errdef.Option{sharedDetails}, optsB...)...).New("det"), defs, false)
+		})
+		add("with", fmt.Sprintf("d%d.With(ContextWithOptions(ctx,Details)).Wrap", i), func() string {
+			return c16Snap(d.With(errdef.ContextWithOptions(ctx, sharedDetails), optsA...).Wrap(cause), defs, false)
 		})
 		add("withoptions", fmt.Sprintf("d%d.WithOptions(optsC).New", i), func() string {
 			return c16Snap(d.WithOptions(optsC...).New("src"), defs, false)
